@@ -90,6 +90,13 @@ CHECKS = {
             "Exhaustive within bounds: all trees with <=1 (thorough 2) operator/bracket nodes over 25 path/lambda atoms "
             "x 3 variable names, visited in two different orders with interleaved foreign calls.",
             "Trusted: spec/Rewrite.tla; harness/project.py."),
+    "C18": ("DESIGN.md 6/C18",
+            "TLC enumerates well-typed expressions from a typed derivation machine (MC_C18); invariant: bottom-up "
+            "Typing!TypeOf = intended type; replayed into infer_type / typecheck / SQL visitors",
+            "Exhaustive within bounds: every well-typed expression with <=3 (thorough 4) function/operator nodes over 9 "
+            "root types (105k states quick); inferred type must be unknown or the spec type; typecheck accepts every "
+            "admissible set and rejects literals of other kinds; visited in two orders.",
+            "Trusted: spec/Typing.tla ReturnType (transcribed from OData 4.01)."),
 }
 
 PENDING = ["C01", "C02", "C03", "C04", "C06", "C07", "C08", "C09", "C10", "C11", "C12", "C13", "C14", "C15",
